@@ -472,7 +472,11 @@ def walk_call(ctx, attempts, t0, first_fetch=True):
             return {"status": "raise", "cls": engine.CODE_TO_EXC[code].__name__, "t_end": t_end, "used": k,
                     "why": f"{code} is not retryable for this call ({'no retry policy' if pol is None else pol['codes']})"}
         f = ctx["jit"][a["n"] - 1] if a["n"] - 1 < len(ctx["jit"]) else ctx["jd"]
-        bound = min(pol["initial"] * (pol["multiplier"] ** (k - 1)), pol["maximum"])
+        # api-core's truncated exponential backoff: the bound starts at min(initial, maximum) and is multiplied and
+        # capped step by step (this differs from min(initial*mult^(k-1), max) when initial > maximum and mult < 1)
+        bound = min(pol["initial"], pol["maximum"])
+        for _ in range(k - 1):
+            bound = min(bound * pol["multiplier"], pol["maximum"])
         sleep = f * bound
         over = (t_end - t0) + sleep - retry_T if retry_T is not None else None
         if over is not None and abs(over) <= TOL:
